@@ -85,9 +85,11 @@ def exec_isolated(fn, timeout=RUN_TIMEOUT):
 
 class Scratch:
     def __init__(self, label: str):
-        self.path = os.path.join(env.scratch_base(), f"verif-{os.getpid()}-{label}")
-        shutil.rmtree(self.path, ignore_errors=True)
-        os.makedirs(self.path)
+        import tempfile
+
+        # unique even if another PID namespace (a background run of the same checks) shares
+        # the scratch file system and happens to use the same process id
+        self.path = tempfile.mkdtemp(prefix=f"verif-{os.getpid()}-{label}-", dir=env.scratch_base())
 
     def sub(self, name: str) -> str:
         p = os.path.join(self.path, name)
@@ -140,15 +142,31 @@ def _worker(engine, prop, tier, seed, indices, scratch, outpath, stopfile):
                 return res
 
             tmo = getattr(engine, "timeouts", {}).get(tier, RUN_TIMEOUT)
-            status, payload = exec_isolated(fn, tmo)
-            if status == "ok":
-                res = payload
-            elif status == "harness_error":
-                res = {"harness_error": payload, "violations": []}
-            elif status == "timeout":
-                res = {"harness_error": f"wall-clock backstop ({tmo}s) hit", "violations": []}
-            else:
-                res = {"harness_error": f"run process died: {payload}", "violations": []}
+            attempts = 0
+            while True:
+                attempts += 1
+                status, payload = exec_isolated(fn, tmo)
+                if status == "ok":
+                    res = payload
+                elif status == "harness_error":
+                    res = {"harness_error": payload, "violations": []}
+                elif status == "timeout":
+                    res = {"harness_error": f"wall-clock backstop ({tmo}s) hit", "violations": []}
+                else:
+                    res = {"harness_error": f"run process died: {payload}", "violations": []}
+                # a process of the simulation that was killed or starved from outside (SIGKILL by
+                # the host, a wall-clock backstop on an overloaded machine) says nothing about the
+                # code: the run is deterministic, so it is simply executed again; what is genuine
+                # shows again
+                env_fault = bool(res.get("harness_error")) and any(m in str(res["harness_error"]) for m in ("backstop", "timed out", "run process died", "killed from outside"))
+                if env_fault and attempts < 3:
+                    shutil.rmtree(d, ignore_errors=True)
+                    os.makedirs(d, exist_ok=True)
+                    time.sleep(2.0 * attempts)
+                    continue
+                break
+            if attempts > 1:
+                res.setdefault("probes", {})["rerun_after_environment_fault"] = attempts - 1
             res["index"] = i
             res["wall"] = time.monotonic() - t0
             shutil.rmtree(d, ignore_errors=True)
